@@ -454,8 +454,15 @@ func TestC09CloseFailures(t *testing.T) {
 // ends the application); meanwhile another goroutine closes that same parent / provider.
 // The owner's Close waits for the scope, the instance's call waits for the owner: unless
 // one of them gives way nobody ever returns.
-func TestC09CloseFromClose(t *testing.T) {
-	col := evid.New("C09", "close-of-an-owner-from-inside-a-close", "configurations biased to disposable services; a scope tree (depth<=3) in which services were resolved; one scope C with a disposable instance of its own is picked, and an owner O of it (an ancestor scope or the provider); goroutine 2 closes C and, inside the Close() of C's first instance, waits until goroutine 1 has called O.Close() and has been running for 30 ms (it is then waiting for C), then calls O.Close() itself; oracle: both Close calls and the call made from inside the Close method return within 10 s (no deadlock), without panicking, and in the end - after the provider is closed - every instance has received exactly one Close call; non-trivial = the instance's Close method made its call while the owner's Close was waiting")
+func TestC09CloseFromClose(t *testing.T) { runCloseFromClose(t, "C09") }
+
+// TestC11CloseFromClose: the same programs seen from the singletons: when the Close method closes
+// an enclosing scope (not the provider) and the provider is closed meanwhile, the provider's Close
+// still waits for the scope whose disposal made the call - every scope before any singleton.
+func TestC11CloseFromClose(t *testing.T) { runCloseFromClose(t, "C11") }
+
+func runCloseFromClose(t *testing.T, prop string) {
+	col := evid.New(prop, "close-of-an-owner-from-inside-a-close", "configurations biased to disposable services; a scope tree (depth<=3) in which services were resolved; one scope C with a disposable instance of its own is picked, and an owner O of it (an ancestor scope or the provider); goroutine 2 closes C and, inside the Close() of C's first instance, waits until goroutine 1 has called Close on O or on another owner of C (an ancestor scope or the provider) and has been running for 30 ms (it is then waiting for C), then calls O.Close() itself (or the other way round: it closes O first and is still running when goroutine 1 arrives); oracle: when the Close method closes a scope and goroutine 1 the provider, no singleton is closed before everything C owns is closed; both Close calls and the call made from inside the Close method return within 10 s (no deadlock), without panicking, and in the end - after the provider is closed - every instance has received exactly one Close call; non-trivial = the instance's Close method made its call while the owner's Close was waiting")
 	defer col.Flush()
 	rapid.Check(t, func(rt *rapid.T) {
 		cfg := kit.GenConfig(rt, dispOpts())
@@ -490,15 +497,33 @@ func TestC09CloseFromClose(t *testing.T) {
 			x.R.CloseProvider()
 			return
 		}
-		ctag := rapid.SampledFrom(kit.SortedInts(keysOf(owns))).Draw(rt, "scope")
+		cands := kit.SortedInts(keysOf(owns))
+		var nested []int
+		for _, tg := range cands {
+			if len(x.R.Ancestors(tg)) >= 2 {
+				nested = append(nested, tg)
+			}
+		}
+		if len(nested) > 0 && rapid.IntRange(0, 3).Draw(rt, "preferNested") != 0 {
+			cands = nested
+		}
+		ctag := rapid.SampledFrom(cands).Draw(rt, "scope")
 		anc := append(x.R.Ancestors(ctag), 0) // ctag itself first, the provider (0) last
 		otag := rapid.SampledFrom(anc[1:]).Draw(rt, "owner")
+		if len(anc) > 2 && rapid.Bool().Draw(rt, "ownerIsAScope") {
+			otag = rapid.SampledFrom(anc[1 : len(anc)-1]).Draw(rt, "ownerScope")
+		}
+		g1tag := otag // what goroutine 1 closes: the same owner, or another one
+		if rapid.Bool().Draw(rt, "otherOwner") {
+			g1tag = rapid.SampledFrom(anc[1:]).Draw(rt, "g1owner")
+		}
 		closeOf := func(tag int) func() error {
 			if tag == 0 {
 				return x.R.P.Close
 			}
 			return x.R.ScopeRecOf(tag).S.Close
 		}
+		innerFirst := rapid.Bool().Draw(rt, "innerFirst")
 		var g2 atomic.Int64
 		inClose := make(chan struct{})
 		goOn := make(chan struct{})
@@ -512,10 +537,18 @@ func TestC09CloseFromClose(t *testing.T) {
 			}
 			once.Do(func() {
 				fired = true
-				close(inClose)
-				<-goOn
 				defer close(innerDone)
 				defer func() { innerPanic = recover() }()
+				if innerFirst {
+					// the owner is closed first, with nobody else around; goroutine 1 arrives while
+					// this Close method - and with it the disposal of C - is still running
+					_ = closeOf(otag)()
+					close(inClose)
+					<-goOn
+					return
+				}
+				close(inClose)
+				<-goOn
 				_ = closeOf(otag)()
 			})
 		}
@@ -538,19 +571,19 @@ func TestC09CloseFromClose(t *testing.T) {
 		case <-d2:
 		case <-time.After(10 * time.Second):
 		}
-		d1, p1 := run(closeOf(otag), nil)
+		d1, p1 := run(closeOf(g1tag), nil)
 		select {
 		case <-d1:
 		case <-time.After(30 * time.Millisecond):
 		}
 		close(goOn)
-		canon := fmt.Sprintf("%s\ngoroutine 2 closes s%d; the Close() of its first instance calls Close on s%d (0 = the provider) while goroutine 1 is closing s%d", x.describe(), ctag, otag, otag)
+		canon := fmt.Sprintf("%s\ngoroutine 2 closes s%d; the Close() of its first instance calls Close on s%d (0 = the provider) while goroutine 1 is closing s%d (the Close method makes its call before goroutine 1 starts: %v)", x.describe(), ctag, otag, g1tag, innerFirst)
 		var f *Failure
 		for _, w := range []struct {
 			what string
 			done chan struct{}
 			pv   *any
-		}{{fmt.Sprintf("Close of s%d (goroutine 2)", ctag), d2, p2}, {fmt.Sprintf("Close of s%d (goroutine 1)", otag), d1, p1}} {
+		}{{fmt.Sprintf("Close of s%d (goroutine 2)", ctag), d2, p2}, {fmt.Sprintf("Close of s%d (goroutine 1)", g1tag), d1, p1}} {
 			if f != nil {
 				break
 			}
@@ -585,7 +618,31 @@ func TestC09CloseFromClose(t *testing.T) {
 				}
 			}
 		}
-		col.Case(fired, canon, canon, fmt.Sprintf("owner-is-provider=%v", otag == 0))
+		if f == nil && fired && otag != 0 && g1tag == 0 {
+			// only goroutine 1 closes the provider: it waits for every scope, also for the one
+			// whose disposal is busy closing an enclosing scope
+			var lastOfC int64
+			for _, e := range x.W.AllEntries() {
+				if e.Inv != nil && e.ScopeTag == ctag && x.M.Regs[e.Reg].Life != kit.Singleton {
+					for _, seq := range e.CloseSeqs() {
+						if seq > lastOfC {
+							lastOfC = seq
+						}
+					}
+				}
+			}
+			for _, e := range x.W.AllEntries() {
+				if f != nil || e.Inv == nil || x.M.Regs[e.Reg].Life != kit.Singleton {
+					continue
+				}
+				for _, seq := range e.CloseSeqs() {
+					if seq < lastOfC {
+						f = fail("C11", "scopes-before-singletons", "close-of-an-owner-from-inside-a-close", "singleton %v was closed while scope s%d - whose disposal was busy closing the enclosing scope s%d - still had an open instance", e, ctag, otag)
+					}
+				}
+			}
+		}
+		col.Case(fired, canon, canon, fmt.Sprintf("owner-is-provider=%v", otag == 0), fmt.Sprintf("goroutine-1-closes-provider=%v", g1tag == 0))
 		if f != nil {
 			if isKnown(f) {
 				col.Excluded()
